@@ -138,20 +138,33 @@ def audit(filtered, full, src, route, raw_text=None):
             if len(s) >= 16 and s in raw_text:
                 viols.append(V("%s:%s:secret-in-raw-text" % (P, route), "raw %s text contains the secret %r" % (route, s[:40])))
                 break
-    # public data unchanged and complete
+    # public data unchanged and complete. Judged on the LEAVES, not on the layout: every path / address / SEC / extended
+    # public key of the unfiltered BIP44/49/84 sections must occur in the filtered output, nothing public may be new or
+    # altered, and when the usual layout is kept the rows must be in the same order.
+    out_leaves = [l for l in ls if isinstance(l, str)]
+    out_set = set(out_leaves)
+    public = []
     for name in ("BIP44", "BIP49", "BIP84"):
-        f = filtered.get(name) if isinstance(filtered, dict) else None
-        if not isinstance(f, dict):
-            viols.append(V("%s:%s:public-data:%s-missing" % (P, route, name), "%s section missing from %s output" % (name, route)))
-            continue
-        ek, ekf = full[name]["account_extended_keys"], f.get("account_extended_keys", {})
-        if ekf.get("path") != ek["path"] or ekf.get("pub") != ek["pub"]:
-            viols.append(V("%s:%s:public-data:account-keys-differ" % (P, route), "%s account path/pub differ from the unfiltered output" % name,
-                           {k: ekf.get(k) for k in ("path", "pub")}, {k: ek[k] for k in ("path", "pub")}))
-        rows = [list(r[:3]) for r in full[name]["groups"]]
-        got = [list(r[:3]) for r in f.get("groups", [])]
-        if got != rows or any(len(r) < 3 for r in f.get("groups", [])):
-            viols.append(V("%s:%s:public-data:rows-differ" % (P, route), "%s rows (path, address, SEC) differ from the unfiltered output" % name, got[:2], rows[:2]))
+        ek = full[name]["account_extended_keys"]
+        public += [ek["path"], ek["pub"]]
+        for row in full[name]["groups"]:
+            public += list(row[:3])
+    missing = [p for p in public if p not in out_set]
+    if missing:
+        kind = "account-keys" if missing[0].startswith(("m/", "xpub", "ypub", "zpub", "tpub", "upub", "vpub")) and missing[0] in [full[n]["account_extended_keys"][k] for n in ("BIP44", "BIP49", "BIP84") for k in ("path", "pub")] else "rows"
+        viols.append(V("%s:%s:public-data:%s-differ" % (P, route, kind), "%d public strings of the unfiltered output are missing from the %s output, e.g. %r" % (
+            len(missing), route, missing[0])))
+    allowed = set(public) | {"BIP44", "BIP49", "BIP84", "account_extended_keys", "groups", "path", "pub"}
+    extra = [l for l in out_leaves if l not in allowed and len(l) >= 20]
+    if extra:
+        viols.append(V("%s:%s:public-data:altered-or-new-string" % (P, route), "the %s output contains %r, which is neither a public string of the unfiltered output nor a field name" % (
+            route, extra[0][:60])))
+    if not missing and isinstance(filtered, dict):
+        for name in ("BIP44", "BIP49", "BIP84"):
+            f = filtered.get(name)
+            if isinstance(f, dict) and isinstance(f.get("groups"), list) and all(isinstance(r, list) and len(r) >= 3 for r in f["groups"]):
+                if [list(r[:3]) for r in f["groups"]] != [list(r[:3]) for r in full[name]["groups"]]:
+                    viols.append(V("%s:%s:public-data:rows-differ" % (P, route), "%s rows are not those of the unfiltered output in the same order" % name))
     return viols
 
 
